@@ -148,7 +148,7 @@ func sequential(env *vh.Env, rep *vh.Report, rng *vh.Rng, fams []*family) {
 			rets := make([]string, 0, n)
 			var progress int32
 			at("sequential %s: %v", f.typ, ls)
-			o := vh.GuardTimeout(10*time.Second, func() {
+			o := vh.GuardTimeout(hangLimit, func() {
 				for _, c := range it.calls {
 					rets = append(rets, tgt.apply(c))
 					atomic.AddInt32(&progress, 1)
@@ -157,7 +157,7 @@ func sequential(env *vh.Env, rep *vh.Report, rng *vh.Rng, fams []*family) {
 			if o.Timeout {
 				k := int(atomic.LoadInt32(&progress))
 				rep.Fail("property", f.typ+"."+kindMethod(it.calls[k].Kind)+":blocks-forever",
-					fmt.Sprintf("single-threaded %s: call %d %v did not return within 10 s", f.typ, k, it.calls[k]),
+					fmt.Sprintf("single-threaded %s: call %d %v did not return within 25 s", f.typ, k, it.calls[k]),
 					map[string]interface{}{"type": f.typ, "calls": it.calls[:k+1]})
 				markDead(f.typ)
 				break // this type hangs: its remaining histories would only wait for the watchdog
@@ -327,7 +327,7 @@ func runStress(thorough bool, seed uint64, fams []*family, mark func(string)) *s
 			out.Goro[fmt.Sprint(nG)]++
 			if dead {
 				out.Fails = append(out.Fails, stressFail{f.typ, f.typ + ":stress-deadlock",
-					fmt.Sprintf("%d goroutines × %d point operations on one %s did not finish within 10 s", nG, nOps, f.typ), nil})
+					fmt.Sprintf("%d goroutines × %d point operations on one %s did not finish within 25 s", nG, nOps, f.typ), nil})
 				markDead(f.typ)
 				break // the remaining rounds of this type would only wait for the watchdog
 			}
